@@ -365,7 +365,17 @@ pub fn feature_doc(rng: &mut Rng, many_patterns: bool, allow_random: bool) -> St
 
 /// Documents which must fail, with the reason class.
 pub fn failing_doc(rng: &mut Rng) -> (String, &'static str) {
-    match rng.below(14) {
+    match rng.below(16) {
+        // the same template child fails in two instances, with different messages: the report
+        // lists them in one stable order
+        14 => (
+            "<svg><specs><g id=\"t\"><rect xy=\"$ref|h\" wh=\"2\"/><circle cxy=\"$ref@t\" r=\"1\"/></g></specs><reuse href=\"#t\" ref=\"#missing_a\"/><reuse href=\"#t\" ref=\"#missing_b\"/><reuse href=\"#t\" ref=\"#missing_c\"/></svg>".to_string(),
+            "multi-error-same-template",
+        ),
+        15 => (
+            "<svg><g><rect xy=\"#m1|h\" wh=\"1\"/><g><rect xy=\"#m2|h\" wh=\"1\"/><rect xy=\"#m3|v\" wh=\"1\"/></g></g><g><circle cxy=\"#m4@t\" r=\"1\"/></g><loop count=\"2\"><rect xy=\"#m5|h\" wh=\"1\"/></loop></svg>".to_string(),
+            "multi-error-nested",
+        ),
         // several attributes of one element break a limit: the report must name the same one every time
         12 => (
             "<svg><config var-limit=\"10\"/><rect id=\"a\" wh=\"1\"/><reuse href=\"#a\" foo=\"aaaaaaaaaaaaaaaaaaaa\" bar=\"bbbbbbbbbbbbbbbbbbbbbbbbb\" baz=\"cccccccccccccccccc\" qux=\"dddddddddddddddd\"/></svg>".to_string(),
@@ -416,6 +426,32 @@ pub fn leak_probe_doc(rng: &mut Rng) -> String {
         4 => "<svg><rect wh=\"4\" text=\"{{random()}} {{randint(1, 1000000)}}\"/><circle r=\"2\" cxy=\"^@br\"/></svg>".to_string(),
         _ => "<svg><circle cxy=\"^@t\" r=\"2\"/><rect wh=\"3\"/><rect wh=\"2\"/></svg>".to_string(),
     }
+}
+
+/// Documents close to (but within) the DEFAULT limits: a front-end that quietly runs with
+/// other limits than the library disagrees on them.
+pub fn near_limit_doc(rng: &mut Rng) -> String {
+    match rng.below(4) {
+        0 => format!("<svg><loop count=\"{}\" loop-var=\"i\"><rect xy=\"{{{{$i}}}} 0\" wh=\"1\"/></loop></svg>", 201 + rng.below(799)),
+        1 => {
+            let n = 900 + rng.usize(120);
+            format!("<svg><var v=\"{}\"/><rect wh=\"2\" text=\"$v\"/></svg>", "v".repeat(n))
+        }
+        2 => {
+            let d = 60 + rng.usize(30);
+            format!("<svg>{}<rect wh=\"1\"/>{}</svg>", "<g>".repeat(d), "</g>".repeat(d))
+        }
+        _ => format!(
+            "<svg><var i=\"0\"/><loop while=\"lt($i, {})\"><var i=\"{{{{$i + 1}}}}\"/></loop><rect wh=\"2\" text=\"$i\"/></svg>",
+            300 + rng.below(600)
+        ),
+    }
+}
+
+/// A fragment whose output is one long line without a trailing newline.
+pub fn long_line_fragment(rng: &mut Rng) -> String {
+    let n = 1100 + rng.usize(3000);
+    format!("<rect wh=\"3\" text=\"{}\"/>", "w".repeat(n))
 }
 
 /// A document whose output depends on as much per-transform state as possible (the
